@@ -7,7 +7,7 @@ import tempfile
 import astwire
 from gens.programs import Opts, Gen
 
-THEOREMS = ['findLoops_is_source_order', 'n_loops_is_source_count']
+THEOREMS = ['findLoops_is_source_order', 'n_loops_is_source_count', 'findLoops_dispatch_as_modelled']
 RULE = ('generated C files (1-3 functions) with loops nested in branches, blocks, labelled statements, other loops and '
         '(unsupported) switch bodies, empty-bodied loops, non-counted for loops; compared: FindLoops with the generic '
         'pre-order traversal Spec.allLoops (Lean), loop-mode results (one per loop with a non-empty body, source '
@@ -128,6 +128,23 @@ def run(ctx):
     alphabet = ['/', '*', '"', "'", '\\', '\n', 'a', ' ', ';', '/', '*', '\n']
     for _ in range(ctx.budget(300, 6000)):
         texts.append(''.join(rng.choice(alphabet) for _ in range(rng.randint(1, 24))))
+    # structured, lexically valid texts: code, literals containing comment markers / quotes, comments
+    toks = ['int a;', 'x = 1;', "c = '\"';", "c = '\\'';", "c = 'a';", 's = "s";', 's = "a//b";', 's = "/*";', 's = "*/";',
+            's = "\\"";', "c = '/';", '/* c */', '/* " */', "/* ' */", '// c', '// "', "// '", '', '   ', '/**/', 'y = a / b;']
+    for _ in range(ctx.budget(400, 6000)):
+        lines = []
+        for _l in range(rng.randint(1, 7)):
+            r = rng.random()
+            if r < 0.12:
+                lines.append(rng.choice(['int a; ', '']) + '/* open')
+                for _k in range(rng.randint(0, 2)):
+                    lines.append(rng.choice(['still " comment', "it's", '   ', '// nested marker', 'x = 1;']))
+                lines.append('close */' + rng.choice(['', ' int b;']))
+            else:
+                parts = [rng.choice(toks) for _k in range(rng.randint(1, 3))]
+                # a // comment swallows the rest of the line: fine, still valid
+                lines.append(' '.join(parts))
+        texts.append('\n'.join(lines) + rng.choice(['', '\n']))
     for fsrc in files[:40]:
         lines = fsrc.replace('{', '{\n').replace(';', '; // c\n').split('\n')
         texts.append('\n'.join(lines) + '\n/* tail\n comment */\n')
